@@ -50,53 +50,87 @@ def decode_fmt(b):
 
 
 def accepted(fn):
-    """enumerate the paths of a `fn(char) -> bool` that return true: set of literal code points,
-    set of predicate names taken on their true edge, and a flag for 'accepts on an unconditioned path'"""
+    """enumerate the paths of a `fn(char) -> bool` that return true, path-sensitively (boolean temporaries
+    assigned constants along the path are propagated, so `matches!(c, ..) || pred(c)` is followed exactly):
+    set of literal code points, set of predicate names taken on their true edge, and the paths that
+    return true without any test of the character"""
     T = M.Terms(fn)
     lits, preds, unconditioned = set(), set(), []
     c = ("param", 1, fn.local_name(1))
+    budget = [20000]
 
-    def walk(bb, cons, seen):
-        if bb in seen:
+    def walk(bb, cons, env, depth):
+        budget[0] -= 1
+        if budget[0] < 0 or depth > 200:
+            unconditioned.append([("path explosion",)])
             return
-        seen = seen | {bb}
         b = fn.blocks[bb]
-        rv = None
+        env = dict(env)
         for s in b["stmts"]:
-            if s["k"] == "assign" and s["p"]["l"] == 0 and not s["p"]["proj"] and s["r"]["k"] == "use" and s["r"]["op"]["k"] == "const":
-                rv = s["r"]["op"].get("int")
+            if s["k"] == "assign" and not s["p"]["proj"]:
+                l = s["p"]["l"]
+                r = s["r"]
+                v = None
+                if r["k"] == "use" and r["op"]["k"] == "const" and "int" in r["op"]:
+                    v = r["op"]["int"]
+                elif r["k"] == "use" and r["op"]["k"] in ("copy", "move") and not r["op"]["p"]["proj"]:
+                    v = env.get(r["op"]["p"]["l"])
+                env[l] = v
         t = b["term"]
-        if rv is not None:
-            cons = cons + [("ret", rv)]
         if t["k"] == "return":
-            ret = [x[1] for x in cons if x[0] == "ret"]
-            if ret and ret[-1] == 1:
+            if env.get(0) == 1 or (env.get(0) is None and True):
+                if env.get(0) is None:
+                    # the returned value is not a propagated constant on this path: e.g. `_0 = pred(c)`
+                    d = T.local(0)
+                    tail = [a for a in M.alts(d) if a[0] == "call" and a[2] and M.noref(a[2][0]) == c]
+                    if tail:
+                        preds.update(a[1] for a in tail)
+                    else:
+                        unconditioned.append(cons + [("unknown return value", M.term_str(d)[:60])])
+                    return
                 specific = [x[1] for x in cons if x[0] == "lit"]
                 ptrue = [x[1] for x in cons if x[0] == "pred"]
                 if specific:
-                    lits.update(specific)
+                    lits.update(specific[-1:])
                 elif ptrue:
                     preds.update(ptrue)
                 else:
                     unconditioned.append(cons)
             return
+        if t["k"] == "call":
+            if t["t"] is None:
+                return
+            if not t["dest"]["proj"]:
+                env[t["dest"]["l"]] = None
+            walk(t["t"], cons, env, depth + 1)
+            return
         if t["k"] == "switch":
+            d = t["d"]
+            # a propagated constant decides the branch
+            if d["k"] in ("copy", "move") and not d["p"]["proj"] and env.get(d["p"]["l"]) is not None:
+                walk(M.switch_target(t, env[d["p"]["l"]]), cons, env, depth + 1)
+                return
             sw = M.switch_term(fn, T, bb)
             if M.noref(sw) == c:
                 for v, tb in t["targets"]:
-                    walk(tb, cons + [("lit", v)], seen)
-                walk(t["otherwise"], cons + [("other",)], seen)
+                    walk(tb, cons + [("lit", v)], env, depth + 1)
+                walk(t["otherwise"], cons + [("other",)], env, depth + 1)
                 return
-            if sw[0] == "call" and M.noref(sw[2][0] if sw[2] else ()) == c:
-                walk(M.switch_target(t, 1), cons + [("pred", sw[1])], seen)
-                walk(M.switch_target(t, 0), cons + [("npred", sw[1])], seen)
+            if sw[0] == "call" and sw[2] and M.noref(sw[2][0]) == c:
+                walk(M.switch_target(t, 1), cons + [("pred", sw[1])], env, depth + 1)
+                walk(M.switch_target(t, 0), cons + [("npred", sw[1])], env, depth + 1)
                 return
-            for s in fn.succs(bb):
-                walk(s, cons + [("unknown-branch", M.term_str(sw))], seen)
+            if sw[0] == "bin" and sw[1] == "Eq" and M.noref(sw[2]) == c and const_of(sw[3]) is not None:
+                walk(M.switch_target(t, 1), cons + [("lit", const_of(sw[3]))], env, depth + 1)
+                walk(M.switch_target(t, 0), cons + [("other",)], env, depth + 1)
+                return
+            for s2 in fn.succs(bb):
+                walk(s2, cons + [("unknown-branch", M.term_str(sw)[:40])], env, depth + 1)
             return
-        for s in fn.succs(bb):
-            walk(s, cons, seen)
-    walk(0, [], frozenset())
+        for s2 in fn.succs(bb):
+            walk(s2, cons, env, depth + 1)
+    walk(0, [], {}, 0)
+    # an "unknown-branch" on a path that returns true makes the accepted set unknowable: report it
     return lits, preds, unconditioned
 
 
